@@ -21,7 +21,7 @@ from lib import common as C
 
 ID = "C10"
 PROP_MODULES = ["GPVerif.Props.C10"]
-BUILD_TARGETS = ["GPVerif.Props.C10", "GPVerif.Model.MVN", "GPVerif.Gen.MVN"]
+BUILD_TARGETS = ["GPVerif.Props.C10", "GPVerif.Model.MVN", "GPVerif.Model.MVNShape", "GPVerif.Gen.MVN"]
 RULE = ("getitem: exhaustive index expressions (ints incl. negative/out-of-range, slices start/stop in [-n-1,n+1] "
         "or None, step in {None,1,2,3,-1}, ellipsis, index lists/tensors/arrays, batch x event tuples, paired "
         "advanced indices) on event size <= 4, batch in {(),(2,),(2,3)} x covariance representations; log_prob: "
@@ -31,7 +31,9 @@ RULE = ("getitem: exhaustive index expressions (ints incl. negative/out-of-range
         "inputs; op-then-use histories (uses before the op x negative/zero/tiny scalars and op chains x every consumer "
         "after it: log_prob on 3 paths, entropy, scale_tril, rsample, variance; operand unchanged); getitem on "
         "distributions with variances 1e-14/1e-12/0 and under settings.min_variance floors (covariance, variance, "
-        "log_prob of the marginal).  distinct = distinct (kind, representation, shapes, index expression / op, config); "
+        "log_prob of the marginal); warm-then-derive histories (every cached quantity of a parent touched, then a child derived by "
+        "getitem with every index form / expand / unsqueeze / + / * / / / add_jitter / to_data_independent_dist, every accessor "
+        "of the child judged); __init__ on all 121 pairs of mean / covariance batch shapes x 6 representations.  distinct = distinct (kind, representation, shapes, index expression / op, config); "
         "non-trivial = the real code accepted the input and returned a distribution/tensor that was compared")
 EXHAUSTIVE = True
 TRUSTED = ["translator harness/translate/g7_mvn.py (Python ast -> Gen/MVN.lean)",
